@@ -422,7 +422,20 @@ def check_defaults(prog, rep, rule='R-defaults'):
         reads, writes, other = _key_uses(prog, fn, p)
         stale = sorted(k for k in reads
                        if k not in reset and k in writes)
-        if stale:
+        # an update() at the top whose argument is not a literal table (built
+        # by a call, a comprehension, ...) may reset anything: not decided
+        opaque = any(
+            isinstance(st_, ast.Expr) and isinstance(st_.value, ast.Call) and
+            isinstance(st_.value.func, ast.Attribute) and
+            st_.value.func.attr == 'update' and
+            isinstance(st_.value.func.value, ast.Name) and
+            st_.value.func.value.id == p and update_items(st_.value) is None
+            for st_ in paths.linear(fn.node.body)[:6])
+        if stale and opaque:
+            rep.unknown(rule, where, construct,
+                        'the reset at entry is %s.update(<computed table>)'
+                        % p, line=fn.node.lineno, file=mod.path)
+        elif stale:
             k = stale[0]
             rep.violation(rule, where, construct,
                           'key %r of the default %s object is read (line %d) '
@@ -443,7 +456,26 @@ def update_items(call):
     when the argument is not literal."""
     items = []
     for a in call.args:
-        if isinstance(a, ast.Dict):
+        if isinstance(a, ast.Name):
+            # a module-level constant table:  info.update(_INFO_RESET)
+            root = call
+            while getattr(root, '_parent', None) is not None:
+                root = root._parent
+            found = None
+            for st in getattr(root, 'body', []):
+                if isinstance(st, ast.Assign) and any(
+                        isinstance(t, ast.Name) and t.id == a.id
+                        for t in st.targets):
+                    found = st.value
+            if found is None:
+                return None
+            a = found
+        if isinstance(a, (ast.Tuple, ast.List)) and all(
+                isinstance(e_, (ast.Tuple, ast.List)) and len(e_.elts) == 2
+                and isinstance(e_.elts[0], ast.Constant) for e_ in a.elts):
+            # an iterable of (key, value) pairs
+            items.extend((e_.elts[0].value, e_.elts[1]) for e_ in a.elts)
+        elif isinstance(a, ast.Dict):
             for k, v in zip(a.keys, a.values):
                 if not isinstance(k, ast.Constant):
                     return None
